@@ -1386,22 +1386,29 @@ fn rewrite_float_lit(
     span: Span,
     shape: Shape,
 ) -> RewriteResult {
-    if matches!(
-        context.config.float_literal_trailing_zero(),
-        FloatLiteralTrailingZero::Preserve
-    ) {
-        return wrap_str(
+    let preserve = || {
+        wrap_str(
             context.snippet(span).to_owned(),
             context.config.max_width(),
             shape,
         )
-        .max_width_error(shape.width, span);
+        .max_width_error(shape.width, span)
+    };
+    if matches!(
+        context.config.float_literal_trailing_zero(),
+        FloatLiteralTrailingZero::Preserve
+    ) {
+        return preserve();
     }
 
     let symbol = token_lit.symbol.as_str();
     let suffix = token_lit.suffix.as_ref().map(|s| s.as_str());
 
-    let float_parts = parse_float_symbol(symbol).unwrap();
+    // The parser accepts literals such as `0b1f32` (rejected only later by rustc) whose
+    // symbol is not a decimal float: leave those as they are.
+    let Ok(float_parts) = parse_float_symbol(symbol) else {
+        return preserve();
+    };
     let FloatSymbolParts {
         integer_part,
         fractional_part,
